@@ -395,6 +395,9 @@ func genBase(r *rand.Rand, t reflect.Type, wholeSecond bool) (reflect.Value, boo
 			v.Set(reflect.ValueOf(sql.NullBool{Bool: r.Intn(2) == 0, Valid: true}))
 		}
 		return v, true
+	case reflect.TypeOf(dualCodec{}):
+		v.Set(reflect.ValueOf(dualCodec{N: int32(genInt(r, 32)), S: genString(r)}))
+		return v, true
 	case reflect.TypeOf(centsValuer{}):
 		v.Set(reflect.ValueOf(centsValuer{Cents: genInt(r, 64)}))
 		return v, true
